@@ -24,7 +24,7 @@ LEVEL_NOTE = "pruning key = (names present, per-input version comparison signs, 
 RULE = "programs x runners x all env answers (gate decisions, same/new values), async completion orders within the deviation bound; states = abstract scheduler states reached; transitions = supersteps executed"
 ASSUMPTIONS = ["the monitor demands only what the statement says; the implementation's extra clearing of stale decisions is allowed", "horizon = max_iterations; runs cut by the horizon are judged for safety only"]
 
-GATE_KINDS = ["ifelse2", "ifelseEND", "route2", "route2END", "route2fb", "multi3"]
+GATE_KINDS = ["ifelse2", "ifelseEND", "route2", "route2END", "route2fb", "multi3", "route1+fb", "route1+fb-dict", "route2END-dict"]
 
 
 def g1_program(kind, default_open, gate_in, tgt_in):
@@ -41,6 +41,11 @@ def g1_program(kind, default_open, gate_in, tgt_in):
         nodes.append(T.route("gt", [gate_in], ["pq", "p", "END"], default_open=default_open))
     elif kind == "route2fb":
         nodes.append(T.route("gt", [gate_in], ["pq", "p"], fallback="pq", default_open=default_open))
+    elif kind in ("route1+fb", "route1+fb-dict"):
+        # the fallback is NOT repeated among the declared targets (list form and dict form): it is a target all the same
+        nodes.append(T.route("gt", [gate_in], ["pq"], fallback="p", default_open=default_open, **({"targets_dict": True} if kind.endswith("dict") else {})))
+    elif kind == "route2END-dict":
+        nodes.append(T.route("gt", [gate_in], ["pq", "p", "END"], default_open=default_open, targets_dict=True))
     elif kind == "multi3":
         nodes.append(T.route("gt", [gate_in], ["pq", "p", "pqr"], multi=True, default_open=default_open))
         targets = ["p", "pq", "pqr"]
